@@ -6,6 +6,9 @@ package main
 // replayable schedule.
 
 import (
+	pnfttypes "github.com/medibloc/panacea-core/v2/x/pnft/types"
+	aoltypes "github.com/medibloc/panacea-core/v2/x/aol/types"
+	"bytes"
 	"crypto/sha256"
 	"encoding/hex"
 	"flag"
@@ -228,6 +231,7 @@ func raceChildMain(args []string) int {
 	budget := fs.Float64("budget", 20, "seconds")
 	scratch := fs.String("scratch", os.TempDir(), "scratch")
 	_ = fs.Parse(args)
+	firstUseRaces()
 	env := NewEnv()
 	deadline := time.Now().Add(time.Duration(*budget * float64(time.Second)))
 	var viol []string
@@ -542,4 +546,66 @@ func hashAns(r QRes) string {
 	fmt.Fprintf(h, "%d|%s|", r.Code, r.Codespace)
 	h.Write(r.Value)
 	return hex.EncodeToString(h.Sum(nil)[:10])
+}
+
+
+// firstUseRaces: the first thing a fresh node process does with the custom modules' stateless code may be done by several
+// goroutines at once (CheckTx, Simulate and DeliverTx of the first transactions after a start). Whatever that code builds
+// lazily - tables, compiled patterns, registries - is built here by four goroutines released together, each on message
+// values of its own, before this process has validated anything. The race detector reports unsynchronised first-use
+// initialisation even when the goroutines do not collide in time.
+func firstUseRaces() {
+	ensureSDKConfig()
+	const did = "did:panacea:7Prd74ry1Uct87nZqL3ny7aR7Cg46JamVbJgk8azVgUm"
+	const pub = "qoRmLNBEXoaKDE8dKffMq2DBNxacTEfvbKRuFrccYW1b" // base58 of 33 bytes
+	addr := sdk.AccAddress(bytes.Repeat([]byte{7}, 20)).String()
+	start := make(chan struct{})
+	var wg sync.WaitGroup
+	for w := 0; w < 4; w++ {
+		wg.Add(1)
+		go func(w int) {
+			defer wg.Done()
+			ctx := didtypes.JSONStringOrStrings{"https://www.w3.org/ns/did/v1"}
+			vm := didtypes.NewVerificationMethod(did+"#key1", "EcdsaSecp256k1VerificationKey2019", did, []byte(pub))
+			vm.PublicKeyBase58 = pub
+			doc := &didtypes.DIDDocument{Id: did, Contexts: &ctx, VerificationMethods: []*didtypes.VerificationMethod{&vm},
+				Authentications: []didtypes.VerificationRelationship{didtypes.NewVerificationRelationship(did + "#key1")},
+				Services:        []*didtypes.Service{{Id: "s", Type: "LinkedDomains", ServiceEndpoint: "https://example.org"}}}
+			msgs := []sdk.Msg{
+				&didtypes.MsgCreateDIDRequest{Did: did, Document: doc, VerificationMethodId: did + "#key1", Signature: make([]byte, 64), FromAddress: addr},
+				&didtypes.MsgUpdateDIDRequest{Did: did, Document: doc, VerificationMethodId: did + "#key1", Signature: make([]byte, 64), FromAddress: addr},
+				&didtypes.MsgDeactivateDIDRequest{Did: did, VerificationMethodId: did + "#key1", Signature: make([]byte, 64), FromAddress: addr},
+				&aoltypes.MsgCreateTopicRequest{TopicName: "topic-1", Description: "d", OwnerAddress: addr},
+				&aoltypes.MsgAddWriterRequest{TopicName: "topic-1", Moniker: "w", Description: "d", WriterAddress: addr, OwnerAddress: addr},
+				&aoltypes.MsgDeleteWriterRequest{TopicName: "topic-1", WriterAddress: addr, OwnerAddress: addr},
+				&aoltypes.MsgAddRecordRequest{TopicName: "topic-1", Key: []byte("k"), Value: []byte("v"), WriterAddress: addr, OwnerAddress: addr},
+				&pnfttypes.MsgCreateDenomRequest{Id: "dn", Name: "n", Symbol: "s", Creator: addr},
+				&pnfttypes.MsgMintPNFTRequest{DenomId: "dn", Id: "t", Name: "n", Creator: addr},
+				&pnfttypes.MsgTransferPNFTRequest{DenomId: "dn", Id: "t", Sender: addr, Receiver: addr},
+			}
+			<-start
+			for round := 0; round < 3; round++ {
+				for i := range msgs {
+					m := msgs[(i+w*3)%len(msgs)]
+					func() {
+						defer func() { recover() }()
+						_ = m.ValidateBasic()
+						_ = m.GetSigners()
+						if lm, ok := m.(interface{ GetSignBytes() []byte }); ok {
+							_ = lm.GetSignBytes()
+						}
+					}()
+				}
+				func() {
+					defer func() { recover() }()
+					_ = doc.Valid()
+					_ = didtypes.ValidateDID(did)
+					_ = didtypes.ValidateVerificationMethodID(did+"#key1", did)
+					_ = didtypes.ValidateKeyType("FutureKey2031")
+				}()
+			}
+		}(w)
+	}
+	close(start)
+	wg.Wait()
 }
